@@ -36,7 +36,45 @@ def binding_text(rng):
     return [t1, n, '%s + 1' % m, '%s = %s' % (m, n)]
 
 
-def stream_text(rng):
+FAMILIES = ['%s km to mm', '%s gb to kb', '%s mile to km', '%s kg to lb', '%s usd to eur', '%s try to usd', '%s%% of 200', '200 + %s%%',
+            '%s * 3', '1000 / %s', '%s hours as minutes', '%s to hex', '%s m + 50 cm', '5 km + %s m', '%s usd + 10 eur', '%s is what %% of 80',
+            '$%s * 2', '%s days', '%s mb to byte', '10 - %s']
+FAMILY_BASES = ['0', '1', '1.004', '2.5', '2.503', '12.0049', '1000', '12345.678', '0.001', '999.995']
+FAMILY_SEEN = set()
+FAMILY_DELTAS = ['0', '0', '0.001', '-0.001', '0.003', '-0.003', '0.004', '0.0004', '1', '-1', '0.5']
+
+
+def family_texts(rng, sep):
+    """Near-duplicates: one phrase shape evaluated for values that differ in the third or fourth
+    decimal (or are 0) - what a memo table with a coarse key, or a factor learnt from the first
+    amount, would confuse. Each value is its own text, so the two calculators see them in
+    different orders."""
+    from decimal import Decimal
+    from .numfmt import render_literal
+    shape = rng.choice(FAMILIES)
+    base = Decimal(rng.choice(FAMILY_BASES))
+    vals = []
+    for _ in range(rng.randint(3, 5)):
+        v = base + Decimal(rng.choice(FAMILY_DELTAS))
+        if v < 0:
+            v = -v
+        vals.append(v)
+    if rng.random() < 0.5:
+        vals.insert(rng.randrange(len(vals)), Decimal(0))
+    out = []
+    for v in vals:
+        canon = format(v.normalize(), 'f') if v != 0 else '0'
+        if ('to hex' in shape or 'days' in shape) and '.' in canon:
+            canon = canon.split('.')[0]
+        out.append(shape % render_literal(canon, sep))
+    FAMILY_SEEN.update(out)
+    return out
+
+
+def stream_text(rng, sep=(',', '.')):
+    r = rng.random()
+    if r < 0.12:
+        return family_texts(rng, sep)
     r = rng.random()
     if r < 0.35:
         return [gh.hostile_text(rng, with_sentinels=False)[0][:1500]]
@@ -58,8 +96,10 @@ def strip(r):
     return ('other', repr({k: r[k] for k in r if k in ('hang', 'crash', 'driver_error')}))
 
 
-def program_line(rng, bound):
+def program_line(rng, bound, phrases=True):
     r = rng.random()
+    if not phrases and r >= 0.92:
+        r = 0.5
     if r < 0.45 or not bound:
         n = rng.choice(NAMES)
         if bound and rng.random() < 0.5:
@@ -85,7 +125,7 @@ def run_shard(ctx):
             # ---------------- (a) history independence
             texts = []
             while len(texts) < 120:
-                for t in stream_text(rng):
+                for t in stream_text(rng, sep):
                     texts.append((rng.choice(lang_pool), t))
             order = list(range(len(texts)))
             rng.shuffle(order)
@@ -125,6 +165,8 @@ def run_shard(ctx):
                 res.count('history_texts_compared')
                 if any(s_ is not None for s_ in ra.get('lines', [])):
                     res.distinct.add(cfg['dec'], cfg['tz'], lang, t)
+                if t in FAMILY_SEEN:
+                    res.count('history_near_duplicate_family_texts')
                 sa, sb = strip(ra), strip(rb)
                 bad = None
                 if sa != sb:
@@ -165,6 +207,12 @@ def run_shard(ctx):
             # ---------------- (b) sessions
             ops = [{'op': 'new_calc', 'c': 3, 'seg': True}] + gh.config_ops(cfg, 3, seg=False)
             sessions = {1: {'texts': [], 'bound': set(), 'lang': rng.choice(['en', 'en', 'tr'])}, 2: {'texts': [], 'bound': set(), 'lang': 'en'}}
+            # a history that switches the language of a session uses word-independent lines only (bindings and arithmetic are the
+            # same in every language, C19), so that one execute of the concatenation under the first language stays the reference
+            switching = rng.random() < 0.35
+            for st in sessions.values():
+                st['ref_lang'] = st['lang']
+                st['last'] = None
             for sid, st in sessions.items():
                 ops.append({'op': 'session_new', 's': sid})
                 ops.append({'op': 'session_set_language', 's': sid, 'lang': st['lang']})
@@ -175,22 +223,34 @@ def run_shard(ctx):
                 nl = rng.choice([1, 1, 2, 3, 5, 8, 1, 4])
                 lines = []
                 for _k in range(nl):
-                    ln, b = program_line(rng, st['bound'])
+                    ln, b = program_line(rng, st['bound'], phrases=not switching)
                     lines.append(ln)
                     if b:
                         st['bound'].add(b)
+                if switching and rng.random() < 0.4:
+                    st['lang'] = rng.choice([l_ for l_ in ('en', 'tr') if l_ != st['lang']] + [st['lang']])
+                    ops.append({'op': 'session_set_language', 's': sid, 'lang': st['lang']})
+                    res.count('session_language_switches')
+                if rng.random() < 0.1:
+                    # a text that is set but never evaluated (replaced by the next set_text): it must leave no trace
+                    ops.append({'op': 'session_set_text', 's': sid, 'text': 'zq = 777\nwv = 778\n%s = 779' % rng.choice(NAMES)})
+                    res.count('session_texts_set_but_not_evaluated')
                 if rng.random() < 0.15 and sessions[3 - sid]['bound']:
                     # read a name bound only in the *other* session
                     other = sorted(sessions[3 - sid]['bound'] - st['bound'])
                     if other:
                         lines.append('%s + 1' % other[0])
                 text = ('\r\n' if rng.random() < 0.2 else '\n').join(lines)
+                if st['last'] is not None and rng.random() < 0.18:
+                    text = st['last']             # the byte-identical text set again (an editor refresh): evaluated again, from its first line
+                    res.count('session_same_text_set_again')
+                st['last'] = text
                 st['texts'].append(text)
                 ops.append({'op': 'session_set_text', 's': sid, 'text': text})
                 ops.append({'op': 'execute_session', 'c': 3, 's': sid})
                 i_sess = len(ops) - 1
                 concat = '\n'.join(st['texts'])
-                ops.append({'op': 'execute', 'c': 3, 'lang': st['lang'], 'text': concat})
+                ops.append({'op': 'execute', 'c': 3, 'lang': st['ref_lang'], 'text': concat})
                 steps.append((sid, text, i_sess, len(ops) - 1, len(st['texts']), concat))
             rs = drv.run(ops)
             for sid, text, i_sess, i_ref, kth, concat in steps:
